@@ -1,11 +1,9 @@
-//go:build verif
-
 package worldsim
 
 import (
 	"os"
 
-	"github.com/xjslang/xjs/simhook"
+	"verifsim/hooks"
 )
 
 // With the verif tag /repo's guarded yield points are live: lexing, token
@@ -15,12 +13,11 @@ func init() {
 	if os.Getenv("VERIF_C14_NO_HOOKS") == "1" {
 		return // knob for sensitivity experiments: behave as if /repo had no yield points of its own
 	}
-	hooksActive = true
-	simhook.Yield = func(site int) {
+	hooks.OnPoint = func(site int) {
 		if w := activeWorld; w != nil {
 			w.yield(sHookBase + site)
 			return
 		}
-		hookPointsOutsideWorld++
+		hookPointsOutsideWorld.Add(1)
 	}
 }
